@@ -324,4 +324,132 @@ theorem simpleTypes_fact :
 
 theorem simpleTypes_count_fact : Generated.simpleTypes.length = ReplayModel.simpleTypes.length := by decide
 
+/-! ### interface traversal order -/
+
+/-- what one section contributes by itself (everything of `parseSection` except the interfaces) -/
+def ownPart (al : Aliases) (tyFuel : Nat) (d : EntityDef) (sec : Xml) : R EntityDef := do
+  let props ← match sec.find "Properties" with
+    | some p => addProps al tyFuel d.props p | none => pure d.props
+  let vol := match sec.find "Volatile" with | some v => addVolatile d.volatile v | none => d.volatile
+  let client ← match sec.find "ClientMethods" with
+    | some m => addMethods al tyFuel true d.client m | none => pure d.client
+  let cell ← match sec.find "CellMethods" with
+    | some m => addMethods al tyFuel false d.cell m | none => pure d.cell
+  let base ← match sec.find "BaseMethods" with
+    | some m => addMethods al tyFuel false d.base m | none => pure d.base
+  pure { d with props := props, volatile := vol, client := client, cell := cell, base := base }
+
+/-- the sections in the order their own parts are applied: for every `<Implements>` entry, in
+declaration order, everything that interface visits (depth first), then the section itself -/
+def visitOrder (ifaces : List (String × Xml)) : Nat → Xml → R (List Xml)
+  | 0, _ => .error .other
+  | fuel+1, sec => do
+    let subs ← match sec.find "Implements" with
+      | none => pure []
+      | some impl => impl.children.foldlM (fun acc it => do
+          let nm ← it.stripped
+          match dictGet? ifaces nm with
+          | none => .error .other
+          | some root => do
+            let vs ← visitOrder ifaces fuel root
+            pure (acc ++ vs)) []
+    pure (subs ++ [sec])
+
+
+theorem parseSection_succ (al : Aliases) (ifaces : List (String × Xml)) (tyFuel fuel : Nat) (d : EntityDef) (sec : Xml) :
+    parseSection al ifaces tyFuel (fuel + 1) d sec =
+      (do let d1 ← (match sec.find "Implements" with
+            | none => pure d
+            | some impl => impl.children.foldlM (fun acc it => do
+                let nm ← it.stripped
+                match dictGet? ifaces nm with
+                | none => .error .other
+                | some root => parseSection al ifaces tyFuel fuel acc root) d)
+          ownPart al tyFuel d1 sec) := by
+  rw [parseSection]
+  cases hi : sec.find "Implements" <;> rfl
+
+/-- the interface loop of a section, flattened -/
+theorem children_flat (al : Aliases) (ifaces : List (String × Xml)) (tyFuel fuel : Nat)
+    (ih : ∀ (d d' : EntityDef) (sec : Xml), parseSection al ifaces tyFuel fuel d sec = .ok d' →
+      ∃ vs, visitOrder ifaces fuel sec = .ok vs ∧ vs.foldlM (ownPart al tyFuel) d = .ok d') :
+    ∀ (children : List Xml) (d d' : EntityDef) (accV : List Xml),
+      children.foldlM (fun acc it => do
+          let nm ← it.stripped
+          match dictGet? ifaces nm with
+          | none => .error .other
+          | some root => parseSection al ifaces tyFuel fuel acc root) d = .ok d' →
+      ∃ vs, children.foldlM (fun acc it => do
+          let nm ← it.stripped
+          match dictGet? ifaces nm with
+          | none => (.error .other : R (List Xml))
+          | some root => do
+            let vs ← visitOrder ifaces fuel root
+            pure (acc ++ vs)) accV = .ok (accV ++ vs) ∧ vs.foldlM (ownPart al tyFuel) d = .ok d' := by
+  intro children
+  induction children with
+  | nil =>
+    intro d d' accV h
+    simp only [List.foldlM_nil, pure, Except.pure, Except.ok.injEq] at h
+    exact ⟨[], by simp [pure, Except.pure], by simp [h, pure, Except.pure]⟩
+  | cons it rest ihc =>
+    intro d d' accV h
+    simp only [List.foldlM_cons] at h ⊢
+    cases hs : it.stripped with
+    | error e => simp [hs, bind, Except.bind] at h
+    | ok nm =>
+      simp only [hs, bind, Except.bind] at h ⊢
+      cases hl : dictGet? ifaces nm with
+      | none => simp [hl] at h
+      | some root =>
+        simp only [hl] at h ⊢
+        cases hp : parseSection al ifaces tyFuel fuel d root with
+        | error e => simp [hp] at h
+        | ok d1 =>
+          simp only [hp] at h
+          obtain ⟨vs1, hv1, hf1⟩ := ih d d1 root hp
+          obtain ⟨vs2, hv2, hf2⟩ := ihc d1 d' (accV ++ vs1) h
+          refine ⟨vs1 ++ vs2, ?_, ?_⟩
+          · simp only [hv1, pure, Except.pure]
+            rw [← List.append_assoc]
+            exact hv2
+          · rw [List.foldlM_append, hf1]
+            exact hf2
+
+/-- **Interface recursion is a flat fold.** Whenever a section parses, the result is the
+left fold of the sections' own parts (properties last-wins, methods first-wins, volatiles)
+over the depth-first visiting order: each `<Implements>` entry in declaration order with
+everything it implements before it, the section itself last. -/
+theorem parseSection_flat (al : Aliases) (ifaces : List (String × Xml)) (tyFuel : Nat) :
+    ∀ (fuel : Nat) (d d' : EntityDef) (sec : Xml), parseSection al ifaces tyFuel fuel d sec = .ok d' →
+      ∃ vs, visitOrder ifaces fuel sec = .ok vs ∧ vs.foldlM (ownPart al tyFuel) d = .ok d' := by
+  intro fuel
+  induction fuel with
+  | zero => intro d d' sec h; simp [parseSection] at h
+  | succ fuel ih =>
+    intro d d' sec h
+    rw [parseSection_succ] at h
+    unfold visitOrder
+    cases hi : sec.find "Implements" with
+    | none =>
+      simp only [hi, pure, Except.pure, bind, Except.bind] at h ⊢
+      exact ⟨[sec], rfl, by simp [List.foldlM_cons, h, bind, Except.bind, pure, Except.pure]⟩
+    | some impl =>
+      simp only [hi, bind, Except.bind] at h ⊢
+      cases hc : impl.children.foldlM (fun acc it => do
+          let nm ← it.stripped
+          match dictGet? ifaces nm with
+          | none => .error .other
+          | some root => parseSection al ifaces tyFuel fuel acc root) d with
+      | error e => simp [bind, Except.bind] at hc; rw [hc] at h; simp at h
+      | ok d1 =>
+        simp only [bind, Except.bind] at hc
+        rw [hc] at h
+        obtain ⟨vs, hv, hf⟩ := children_flat al ifaces tyFuel fuel ih impl.children d d1 [] hc
+        simp only [List.nil_append, bind, Except.bind] at hv
+        refine ⟨vs ++ [sec], ?_, ?_⟩
+        · rw [hv]; rfl
+        · rw [List.foldlM_append, hf]
+          simp [List.foldlM_cons, h, bind, Except.bind, pure, Except.pure]
+
 end ReplayModel.C04
